@@ -44,14 +44,14 @@ static inline uint32_t spec_nth_on_ray(int ray, uint32_t k, uint64_t occ, int nt
   }
   return res;
 }
-static inline _Bool spec_pin_on_ray(int ray, uint32_t k, uint64_t occ, uint64_t own, uint64_t enemy_q, uint64_t enemy_r, uint64_t enemy_b, uint32_t *pinned_sq)
+static inline uint32_t spec_pin_sq(int ray, uint32_t k, uint64_t occ, uint64_t own, uint64_t enemy_q, uint64_t enemy_r, uint64_t enemy_b)
 {
+  /* square of the piece pinned on `ray` (64 if there is no pin on that ray) */
   uint32_t a = spec_nth_on_ray(ray, k, occ, 0), b = spec_nth_on_ray(ray, k, occ, 1);
-  *pinned_sq = a;
-  if (a == 64 || b == 64) return 0;
-  if (!((own >> a) & 1)) return 0;
+  if (a == 64 || b == 64) return 64;
+  if (!((own >> a) & 1)) return 64;
   uint64_t sliders = enemy_q | ((ray & 1) ? enemy_r : enemy_b);
-  return (sliders >> b) & 1;
+  return ((sliders >> b) & 1) ? a : 64u;
 }
 /* is square sq attacked by the enemy of `side` when the own king (on k) is lifted off the board?  (squares the king may not step to)
  * Stated attacker by attacker: some enemy pawn / knight / king / slider standing on a square s reaches sq. */
@@ -85,9 +85,6 @@ static inline uint32_t spec_fb_cause(uint32_t side, uint32_t sq, uint32_t k, uin
   if (spec_pawn_attackers_of(sq, side) & ep_) kind = 1;
   return (kind << 8) | s0;
 }
-/* square of the piece pinned on `ray` (64 if there is no pin on that ray) */
-static inline uint32_t spec_pin_sq(int ray, uint32_t k, uint64_t occ, uint64_t own, uint64_t eq, uint64_t er, uint64_t eb)
-{ uint32_t sq; return spec_pin_on_ray(ray, k, occ, own, eq, er, eb, &sq) ? sq : 64u; }
 static inline uint64_t spec_pinned_set(uint32_t k, uint64_t occ, uint64_t own, uint64_t eq, uint64_t er, uint64_t eb)
 { uint64_t s = 0; for (int r = 0; r < 8; r++) { uint32_t q = spec_pin_sq(r, k, occ, own, eq, er, eb); if (q != 64) s |= SPEC_BIT(q); } return s; }
 /* number of pins on rays with index below `ray` (the engine records pins in ray order) */
@@ -155,46 +152,47 @@ static inline int spec_pinned_pawn_count(uint32_t side, uint32_t from, int ray, 
 typedef struct { uint64_t own, enemy; uint64_t kind[7]; uint32_t k, side, rights, ep; } AlgSets;
 typedef struct { uint64_t checkers; uint32_t pin[8]; uint64_t att[6]; _Bool fb_t, fb_a, fb_b; uint64_t seg; } AlgGhost;
 static inline uint32_t alg_lsb(uint64_t x) { uint32_t r = 64; for (int s = 63; s >= 0; s--) if ((x >> s) & 1) r = (uint32_t)s; return r; }
-static inline uint32_t alg_kind_at(const AlgSets *S, uint32_t sq)
-{ uint32_t r = 0; for (uint32_t k = 1; k <= 6; k++) if ((S->kind[k] >> (sq & 63)) & 1) r = k; return r; }
+static inline uint32_t alg_kind_at(AlgSets S, uint32_t sq)
+{ uint32_t r = 0; for (uint32_t k = 1; k <= 6; k++) if ((S.kind[k] >> (sq & 63)) & 1) r = k; return r; }
 /* the two squares whose safety castling code cc depends on (f,g / d,c), seen from side's home rank */
 static inline uint32_t alg_castle_sq_a(uint32_t side, uint32_t cc) { return (side == 0 ? 0u : 56u) + (cc == 1 ? 5u : 3u); }
 static inline uint32_t alg_castle_sq_b(uint32_t side, uint32_t cc) { return (side == 0 ? 0u : 56u) + (cc == 1 ? 6u : 2u); }
-static inline int spec_alg_core(const AlgSets *S, const AlgGhost *G, uint32_t m)
+/* (structures are passed and returned by value: no writes through pointers inside specification code) */
+static inline int spec_alg_core(AlgSets S, AlgGhost G, uint32_t m)
 {
-  uint32_t side = S->side, k = S->k;
-  uint64_t own = S->own, enemy = S->enemy, occ = own | enemy;
+  uint32_t side = S.side, k = S.k;
+  uint64_t own = S.own, enemy = S.enemy, occ = own | enemy;
   uint32_t f = spec_move_from(m), t = spec_move_to(m), pr = spec_move_promo(m), cc = spec_move_ccode(m);
   _Bool plain = cc == 0 && pr == 0 && (m >> 17) == 0;
   if ((m >> 17) != 0) return 0;
-  uint64_t checkers = G->checkers;
-  _Bool king_move = plain && f == k && ((spec_king(k) >> t) & 1) && !((own >> t) & 1) && !G->fb_t;
+  uint64_t checkers = G.checkers;
+  _Bool king_move = plain && f == k && ((spec_king(k) >> t) & 1) && !((own >> t) & 1) && !G.fb_t;
   uint64_t push_mask, capture_mask;
   if (checkers) {
     if (checkers & (checkers - 1)) return king_move;
     capture_mask = checkers;
     uint32_t cs = alg_lsb(checkers); uint32_t ck = alg_kind_at(S, cs);
-    push_mask = (ck == 3 || ck == 4 || ck == 5) ? (G->seg ^ SPEC_BIT(k) ^ SPEC_BIT(cs)) : 0;
+    push_mask = (ck == 3 || ck == 4 || ck == 5) ? (G.seg ^ SPEC_BIT(k) ^ SPEC_BIT(cs)) : 0;
   } else { push_mask = ~occ; capture_mask = enemy; }
   uint64_t pinned = 0;
-  for (int r = 0; r < 8; r++) if (G->pin[r] < 64) pinned |= SPEC_BIT(G->pin[r]);
+  for (int r = 0; r < 8; r++) if (G.pin[r] < 64) pinned |= SPEC_BIT(G.pin[r]);
   uint64_t target = capture_mask | push_mask;
-  uint64_t own_pawns = own & S->kind[1];
+  uint64_t own_pawns = own & S.kind[1];
   int cnt = 0;
   cnt += spec_pawn_count(side, own_pawns & ~pinned, ~occ, push_mask, capture_mask, m);
   if (plain && ((own >> f) & 1) && !((pinned >> f) & 1)) {
     uint32_t kd = alg_kind_at(S, f);
-    uint64_t att = (kd >= 2 && kd <= 5) ? G->att[kd] : 0;
+    uint64_t att = (kd >= 2 && kd <= 5) ? G.att[kd] : 0;
     if ((att & target) >> t & 1) cnt++;
   }
-  if (S->ep != 64) cnt += spec_ep_count(side, occ, k, enemy & (S->kind[4] | S->kind[5]), own_pawns & ~pinned, push_mask, capture_mask, S->ep, m);
+  if (S.ep != 64) cnt += spec_ep_count(side, occ, k, enemy & (S.kind[4] | S.kind[5]), own_pawns & ~pinned, push_mask, capture_mask, S.ep, m);
   if (king_move) cnt++;
   if (!checkers) {
     for (int r = 0; r < 8; r++) {
-      uint32_t q = G->pin[r];
+      uint32_t q = G.pin[r];
       if (q < 64 && cc == 0 && f == q) {
         uint32_t kd = alg_kind_at(S, q);
-        if (kd == 1) cnt += spec_pinned_pawn_count(side, q, r, occ, enemy, S->ep, m);
+        if (kd == 1) cnt += spec_pinned_pawn_count(side, q, r, occ, enemy, S.ep, m);
         else if (kd != 2) {
           _Bool allowed = kd == 5 || (kd == 3 && (r & 1) == 0) || (kd == 4 && (r & 1) == 1);
           if (allowed && plain && (((spec_walk_line(r, q, occ) & target) >> t) & 1)) cnt++;
@@ -202,37 +200,40 @@ static inline int spec_alg_core(const AlgSets *S, const AlgGhost *G, uint32_t m)
       }
     }
     uint32_t h = side == 0 ? 0u : 56u;
-    if (m == (1u << 15) && ((S->rights >> (2 * side)) & 1) && !G->fb_a && !G->fb_b && !((occ >> (h + 5)) & 1) && !((occ >> (h + 6)) & 1)) cnt++;
-    if (m == (2u << 15) && ((S->rights >> (2 * side + 1)) & 1) && !G->fb_a && !G->fb_b && !((occ >> (h + 2)) & 1) && !((occ >> (h + 3)) & 1) && !((occ >> (h + 1)) & 1)) cnt++;
+    if (m == (1u << 15) && ((S.rights >> (2 * side)) & 1) && !G.fb_a && !G.fb_b && !((occ >> (h + 5)) & 1) && !((occ >> (h + 6)) & 1)) cnt++;
+    if (m == (2u << 15) && ((S.rights >> (2 * side + 1)) & 1) && !G.fb_a && !G.fb_b && !((occ >> (h + 2)) & 1) && !((occ >> (h + 3)) & 1) && !((occ >> (h + 1)) & 1)) cnt++;
   }
   return cnt;
 }
 /* the true values of the geometric sub-queries for the sets S and the move m */
-static inline void spec_alg_true_ghost(const AlgSets *S, uint32_t m, AlgGhost *G)
+static inline AlgGhost spec_alg_true_ghost(AlgSets S, uint32_t m)
 {
-  uint32_t side = S->side, k = S->k; uint64_t own = S->own, enemy = S->enemy, occ = own | enemy;
-  uint64_t ep_ = enemy & S->kind[1], enn = enemy & S->kind[2], eb = enemy & S->kind[3], er = enemy & S->kind[4], eq = enemy & S->kind[5], ek = enemy & S->kind[6];
+  AlgGhost G;
+  uint32_t side = S.side, k = S.k; uint64_t own = S.own, enemy = S.enemy, occ = own | enemy;
+  uint64_t ep_ = enemy & S.kind[1], enn = enemy & S.kind[2], eb = enemy & S.kind[3], er = enemy & S.kind[4], eq = enemy & S.kind[5], ek = enemy & S.kind[6];
   uint32_t f = spec_move_from(m), t = spec_move_to(m), cc = spec_move_ccode(m);
-  G->checkers = (spec_pawn_attackers_of(k, side) & ep_) | (spec_knight(k) & enn) | (spec_bishop_walk(k, occ) & (eb | eq)) | (spec_rook_walk(k, occ) & (er | eq));
-  for (int r = 0; r < 8; r++) G->pin[r] = spec_pin_sq(r, k, occ, own, eq, er, eb);
-  G->att[0] = G->att[1] = 0; G->att[2] = spec_knight(f); G->att[3] = spec_bishop_walk(f, occ); G->att[4] = spec_rook_walk(f, occ); G->att[5] = spec_queen_walk(f, occ);
-  G->fb_t = spec_forbidden_bit(side, t, k, occ, ep_, enn, eb, er, eq, ek);
-  G->fb_a = spec_forbidden_bit(side, alg_castle_sq_a(side, cc), k, occ, ep_, enn, eb, er, eq, ek);
-  G->fb_b = spec_forbidden_bit(side, alg_castle_sq_b(side, cc), k, occ, ep_, enn, eb, er, eq, ek);
-  G->seg = G->checkers ? spec_segment(k, alg_lsb(G->checkers)) : 0;
+  G.checkers = (spec_pawn_attackers_of(k, side) & ep_) | (spec_knight(k) & enn) | (spec_bishop_walk(k, occ) & (eb | eq)) | (spec_rook_walk(k, occ) & (er | eq));
+  for (int r = 0; r < 8; r++) G.pin[r] = spec_pin_sq(r, k, occ, own, eq, er, eb);
+  G.att[0] = G.att[1] = 0; G.att[2] = spec_knight(f); G.att[3] = spec_bishop_walk(f, occ); G.att[4] = spec_rook_walk(f, occ); G.att[5] = spec_queen_walk(f, occ);
+  G.fb_t = spec_forbidden_bit(side, t, k, occ, ep_, enn, eb, er, eq, ek);
+  G.fb_a = spec_forbidden_bit(side, alg_castle_sq_a(side, cc), k, occ, ep_, enn, eb, er, eq, ek);
+  G.fb_b = spec_forbidden_bit(side, alg_castle_sq_b(side, cc), k, occ, ep_, enn, eb, er, eq, ek);
+  G.seg = G.checkers ? spec_segment(k, alg_lsb(G.checkers)) : 0;
+  return G;
 }
 #ifdef SPEC_POS_H
 static inline uint64_t alg_set(const sp_pc *b, uint32_t pc) { uint64_t o = 0; for (uint32_t s = 0; s < 64; s++) if (b[s] == pc) o |= SPEC_BIT(s); return o; }
 static inline uint64_t alg_colour(const sp_pc *b, uint32_t c) { uint64_t o = 0; for (uint32_t s = 0; s < 64; s++) if (b[s] != 0 && sp_colour(b[s]) == c) o |= SPEC_BIT(s); return o; }
 /* square sets of the mailbox board */
-static inline void spec_alg_sets(const SPos *P, AlgSets *S)
+static inline AlgSets spec_alg_sets(const SPos *P)
 {
-  const sp_pc *b = P->board;
-  S->own = alg_colour(b, P->side); S->enemy = alg_colour(b, 1 - P->side);
-  S->kind[0] = 0; for (uint32_t k = 1; k <= 6; k++) S->kind[k] = alg_set(b, k) | alg_set(b, k + 6);
-  S->k = sp_king_sq(b, P->side); S->side = P->side; S->rights = P->rights; S->ep = P->ep;
+  AlgSets S; const sp_pc *b = P->board;
+  S.own = alg_colour(b, P->side); S.enemy = alg_colour(b, 1 - P->side);
+  S.kind[0] = 0; for (uint32_t k = 1; k <= 6; k++) S.kind[k] = alg_set(b, k) | alg_set(b, k + 6);
+  S.k = sp_king_sq(b, P->side); S.side = P->side; S.rights = P->rights; S.ep = P->ep;
+  return S;
 }
 static inline int spec_alg_count(const SPos *P, uint32_t m)
-{ AlgSets S; AlgGhost G; spec_alg_sets(P, &S); spec_alg_true_ghost(&S, m, &G); return spec_alg_core(&S, &G, m); }
+{ AlgSets S = spec_alg_sets(P); return spec_alg_core(S, spec_alg_true_ghost(S, m), m); }
 #endif
 #endif
